@@ -54,9 +54,10 @@ def make_req(prob, solver, direction, mode, **kw):
 #   PANTR   the check that sees the request returns with no further oracle call (C19_pantr_stop_is_prompt); the iteration in
 #           progress completes first and contains a direction.apply whose cost (Steihaug CG, one Hessian-vector product per
 #           iteration) is not a constant of the theorem: evaluations keep the empirical bound, callbacks are checked
-#   ALM∘PANOC: the solve in which the request lands as above; EVERY later inner solve is start-up + one stop check (one callback,
-#           k = 0, no direction call) and the first that returns Interrupted is the last (C19_alm_panoc_stop_is_prompt); the number
-#           of later solves is NOT bounded by one (finding C19_alm_one_further_solve_refuted) — the bound is per later solve.
+#   under ALM (all four inner solvers): the solve in which the request lands as above; EVERY later inner solve is start-up + one
+#           stop check (one callback, k = 0, no direction call) and the first that returns Interrupted is the last
+#           (C19_alm_panoc_stop_is_prompt, C19_alm_{zerofpr,pantr,fista}_stop_is_prompt); the number of later solves is NOT bounded
+#           by one (finding C19_alm_one_further_solve_refuted) — the bound is per later solve.
 PROVED_K = {"panoc": 3, "zerofpr": 2}
 STARTUP_K = {"panoc": 5, "zerofpr": 4, "fista": 6}
 NBT_CAP = 84      # ceil(log2(L_max / L_min)) for the default 1e20 / 1e-5: halvings of one unpolled step-size loop
@@ -88,8 +89,8 @@ def run(ctx):
     ctx.coverage["rule"] = ("fault enumeration: for 3 fixed problems x 12 solver stacks (10 shipped + 2 with a scripted direction) x {stand-alone, under ALM}: stop() injected at every problem-function "
                             "evaluation index (quick: the first 30 and every 3rd after), every callback index and every direction-provider call; distinct = (problem, solver, mode, injection point kind, final status) signature")
     ctx.assumptions += ["PARTIAL: asynchronous stop() from another thread and data-race freedom of AtomicStopSignal (relaxed load / store on std::atomic<bool>) are runtime behaviour that no Gallina model exhibits; not claimed",
-                        "promptness: PROVED bounds (Properties_C19.v) for PANOC, ZeroFPR, FISTA stand-alone and for ALM∘PANOC, converted to user-function calls (one oracle call <= 4 user calls, <= 2 when m = 0); "
-                        "EMPIRICAL bound elsewhere (PANTR evaluations: the direction's Hessian-vector products are not a constant of the theorem; ALM over ZeroFPR/PANTR/FISTA: no composed theorem): "
+                        "promptness: PROVED bounds (Properties_C19.v) for PANOC, ZeroFPR, FISTA stand-alone and under ALM, converted to user-function calls (one oracle call <= 4 user calls, <= 2 when m = 0); for all four solvers under ALM every inner solve started after the request must be start-up + one stop check (proved); "
+                        "EMPIRICAL evaluation bound for PANTR (the direction's Hessian-vector products are not a constant of the theorem): "
                         "evaluations after the request <= (largest number of evaluations between two callbacks of the unstopped run, or before the first callback) + 8 (2G+8 under ALM)",
                         "FINDING (not a violation of the interpretation in DESIGN §10, reported): under ALM the number of inner solves started after a visible request is not bounded by one; "
                         "each of them is start-up + one stop check (checked), see C19_alm_one_further_solve_refuted and the probe counted in coverage['alm_probe']",
@@ -185,8 +186,8 @@ def run(ctx):
             ctx.count("promptness/proved-bound")
             if tail > bound:
                 ctx.violation("C19:not-prompt:" + tag, "%d further evaluations after stop() (PROVED bound %d = %s)" % (tail, bound, how), info)
-        elif mode == "alm" and solver == "panoc":
-            ctx.count("promptness/proved-bound")
+        elif mode == "alm":
+            # C19_alm_panoc_stop_is_prompt / C19_alm_{zerofpr,pantr,fista}_stop_is_prompt
             W = 4
             # final callbacks (one per inner solve) issued after the request: the solve in progress, then the later ones
             fin_after = [r for r in recs_all if r["status"] != "Busy" and r["evals"] > o["evals_at_stop"]]
@@ -201,12 +202,16 @@ def run(ctx):
             for r in later[:-1]:
                 if r["status"] == "Interrupted":
                     ctx.violation("C19:alm-continued-after-interrupted:" + solver, "an inner solve after outer iteration %d although it returned Interrupted" % r["outer"], info)
-            first = max(W * (PROVED_K["panoc"] + 1) - 1, W * (STARTUP_K["panoc"] + NBT_CAP) - 1)
-            bound = first + len(later) * W * (STARTUP_K["panoc"] + NBT_CAP) + 3      # + compute_kkt_error of the driver
-            # sharper, using what the run reports: a one-check solve costs start-up (<= 3 oracle calls) + 1 eval_ψ per halving + ∇ψ(x̂) + exit
-            if tail > bound:
-                ctx.violation("C19:not-prompt:" + tag, "%d further evaluations after stop() (PROVED bound %d for %d later one-check inner solves)" % (tail, bound, len(later)), info)
-            # the interpretation bound of DESIGN §10 stays in force as well (it is what a user sees)
+            if solver in STARTUP_K:
+                ctx.count("promptness/proved-bound")
+                kloop = PROVED_K.get(solver, STARTUP_K[solver] + NBT_CAP - 1)       # FISTA: the pass in progress incl. its unpolled backtracking
+                first = max(W * (kloop + 1) - 1, W * (STARTUP_K[solver] + NBT_CAP) - 1)
+                bound = first + len(later) * W * (STARTUP_K[solver] + NBT_CAP) + 3      # + compute_kkt_error of the driver
+                if tail > bound:
+                    ctx.violation("C19:not-prompt:" + tag, "%d further evaluations after stop() (PROVED bound %d for %d later one-check inner solves)" % (tail, bound, len(later)), info)
+            else:
+                ctx.count("promptness/empirical-bound")
+            # the interpretation bound of DESIGN §10 stays in force as well (it is what a user sees) while at most one inner solve follows
             if tail > 2 * G + 8 and len(later) <= 1:
                 ctx.violation("C19:not-prompt:" + tag, "%d further evaluations after stop() (bound 2G+8 = %d with at most one later inner solve)" % (tail, 2 * G + 8), info)
             if len(later) > 1:
